@@ -38,14 +38,14 @@ type ChCase struct {
 }
 
 var churnOps = []string{"join-tcp", "leave-tcp", "join-http", "leave-http", "join-mux", "leave-mux", "reg-stcp", "close-stcp", "visitor", "visitor-flood", "reg-xtcp", "close-xtcp",
-	"nathole-visitor", "relogin", "user-tcp", "reg-shared", "close-shared", "pause"}
+	"nathole-visitor", "relogin", "user-tcp", "reg-shared", "close-shared", "pause", "relogin-twin"}
 
 func genCh(t *rapid.T) ChCase {
 	c := ChCase{TCPMux: rapid.Bool().Draw(t, "tcpmux")}
 	n := rapid.IntRange(2, 6).Draw(t, "nworkers")
 	// most cases put several workers on the same few operations: that is where the windows are
 	theme := rapid.SampledFrom([][]string{{"join-tcp", "leave-tcp", "pause"}, {"join-http", "leave-http", "pause"}, {"join-mux", "leave-mux", "pause"}, {"reg-stcp", "close-stcp", "visitor", "visitor-flood", "reg-stcp", "close-stcp", "pause"},
-		{"reg-xtcp", "close-xtcp", "nathole-visitor"}, {"reg-shared", "close-shared", "relogin"}, churnOps}).Draw(t, "theme")
+		{"reg-xtcp", "close-xtcp", "nathole-visitor"}, {"reg-shared", "close-shared", "relogin", "relogin-twin"}, {"relogin-twin", "relogin-twin", "pause"}, churnOps}).Draw(t, "theme")
 	for i := 0; i < n; i++ {
 		l := fmt.Sprintf("w%d", i)
 		w := Worker{Rounds: rapid.SampledFrom([]int{10, 40, 120, 400, 1200}).Draw(t, l+"/rounds"), Target: rapid.IntRange(0, 1).Draw(t, l+"/target")}
@@ -178,6 +178,36 @@ func runCh(c ChCase) error {
 							return
 						}
 						sc = nsc
+					case "relogin-twin":
+						// two logins carrying this session's run id at the same moment (a flapping client): each replaces
+						// whatever holds the run id, possibly a control that has only just been added
+						rid := sc.RunID
+						type res struct {
+							sc *fx.ScriptedClient
+							e  error
+						}
+						ch := make(chan res, 2)
+						for k := 0; k < 2; k++ {
+							go func() {
+								n, e := fx.ConnectCommon(common(), user, rid, 0, fx.TagWork(user))
+								ch <- res{n, e}
+							}()
+						}
+						var alive *fx.ScriptedClient
+						for k := 0; k < 2; k++ {
+							r := <-ch
+							if r.e == nil {
+								if alive != nil {
+									alive.Close()
+								}
+								alive = r.sc
+							}
+						}
+						if alive == nil {
+							return
+						}
+						sc.Close()
+						sc = alive
 					case "user-tcp":
 						if cn, e := net.DialTimeout("tcp", fmt.Sprintf("127.0.0.1:%d", groupPort(w.Target)), 300*time.Millisecond); e == nil {
 							_ = cn.SetReadDeadline(time.Now().Add(100 * time.Millisecond))
@@ -269,7 +299,7 @@ func survivorsHold(s []*fx.ScriptedClient) bool {
 
 func TestFrpsChurn(t *testing.T) {
 	fx.Prelease(2)
-	fx.Run(t, fx.Spec[ChCase]{Prop: "C16", Name: "frps_churn", Quick: 320, Thorough: 8000, Gen: genCh, Run: runCh, ShrinkTime: "60s",
+	fx.Run(t, fx.Spec[ChCase]{Prop: "C16", Name: "frps_churn", Quick: 320, Thorough: 2000, Gen: genCh, Run: runCh, ShrinkTime: "60s",
 		Class: func(c ChCase) fx.Class {
 			ops := map[string]int{}
 			for _, w := range c.Workers {
